@@ -34,6 +34,10 @@ def page(serial, seq, flags, pos, pieces, complete=True):
 
 
 def stream(serial, plan, seq0=0):
+    return b"".join(stream_pages(serial, plan, seq0))
+
+
+def stream_pages(serial, plan, seq0=0):
     """plan: [(pieces, complete, granule or None)] for the consecutive pages of one logical stream.  Derived: the
     continued flag (previous page left a packet open), first/last-page flags, granule -1 on pages finishing no packet"""
     out = []
@@ -47,6 +51,29 @@ def stream(serial, plan, seq0=0):
             pos = -1
         out.append(page(serial, seq0 + i, flags, pos, pieces, complete))
         open_ = not complete
+    return out
+
+
+FOREIGN_SERIAL = 0x0F0E1234
+
+
+def interleave(pages, ncomment):
+    """multiplex a second logical stream (unknown codec: a BOS page, complete data pages, an EOS page) into the page list of
+    a stream whose pages 1 .. ncomment carry the comment packet: both BOS pages first (RFC 3533), then one COMPLETE foreign
+    page between every two consecutive pages of the comment packet, the rest of the foreign stream behind the headers"""
+    plan = [([b"fishead\x00" + pattern(56, 11, 5)], True, 0)]
+    for j in range(max(ncomment - 1, 1)):
+        plan.append(([pattern(300 + 17 * j, 3, j), pattern(40, 9, j)], True, 100 * (j + 1)))
+    plan += [([pattern(120, 13, 1)], True, 900), ([b"end of the foreign stream"], True, 1000)]
+    fp = stream_pages(FOREIGN_SERIAL, plan)
+    out = [pages[0], fp[0]]
+    k = 1
+    for i in range(1, ncomment + 1):
+        out.append(pages[i])
+        if i < ncomment:
+            out.append(fp[k]); k += 1
+    rest = pages[ncomment + 1:]
+    out += rest[:1] + fp[k:-1] + rest[1:] + fp[-1:]
     return b"".join(out)
 
 
@@ -133,12 +160,15 @@ def headers_shared_page(codec, ident, comment, setup_len=3553, serial=0x1234ABCD
     return stream(serial, plan + audio_plan(codec))
 
 
-def headers_own_pages(codec, ident, comment, serial=0x0BADCAFE, setup_len=700, page_size=4080):
-    """[ident] [comment on pages of its own ...] [setup on a fresh page] audio; codecs without setup header: audio follows"""
-    plan = [([ident], True, 0)] + split_pages(comment, page_size)
+def headers_own_pages(codec, ident, comment, serial=0x0BADCAFE, setup_len=700, page_size=4080, foreign=False):
+    """[ident] [comment on pages of its own ...] [setup on a fresh page] audio; codecs without setup header: audio follows.
+    foreign: a second logical stream multiplexed in, one of its pages between every two pages of the comment packet"""
+    cp = split_pages(comment, page_size)
+    plan = [([ident], True, 0)] + cp
     if codec in SETUP:
         plan.append(([SETUP[codec] + pattern(setup_len - 7, 13, 0, 256)], True, 0))
-    return stream(serial, plan + audio_plan(codec))
+    pages = stream_pages(serial, plan + audio_plan(codec))
+    return interleave(pages, len(cp)) if foreign else b"".join(pages)
 
 
 def flac_ident(ident, count):
@@ -149,23 +179,34 @@ def flac_block(typ, payload, last=False):
     return bytes([typ | (0x80 if last else 0)]) + len(payload).to_bytes(3, "big") + payload
 
 
-def oggflac(ident, vendor, items, behind=(), serial=0x0F1AC0DE, comment_pages=False):
+def oggflac(ident, vendor, items, behind=(), serial=0x0F1AC0DE, comment_pages=False, foreign=False):
     """[mapping header + STREAMINFO] [VORBIS_COMMENT block] [further blocks ...] audio; the final block is flagged last.
     behind: [(type, payload)]"""
     blocks = [flac_block(4, vcomment(vendor, items), last=not behind)]
     for i, (t, pl) in enumerate(behind):
         blocks.append(flac_block(t, pl, last=(i == len(behind) - 1)))
     plan = [([flac_ident(ident, len(blocks))], True, 0)]
-    if comment_pages:
-        plan += split_pages(blocks[0])
-    else:
-        plan.append(([blocks[0]], True, 0))
+    cp = split_pages(blocks[0]) if comment_pages else [([blocks[0]], True, 0)]
+    plan += cp
     for b in blocks[1:]:
         plan.append(([b], True, 0))
-    return stream(serial, plan + audio_plan("flac"))
+    pages = stream_pages(serial, plan + audio_plan("flac"))
+    return interleave(pages, len(cp)) if foreign else b"".join(pages)
 
 
 VENDOR = b"Xiph.Org libVorbis I 20200704"
+
+
+def vorbis_text_theora(vorbis_ident, theora_ident):
+    """three logical streams as in Ogg video with subtitles: Vorbis, a text stream, Theora.  All first pages come first
+    (RFC 3533); the Vorbis one lies inside the first 128 bytes of the file, the Theora one starts behind them"""
+    v = stream_pages(0x56565601, [([vorbis_ident], True, 0), ([comment_packet("vorbis", VENDOR, ITEMS, 700)], True, 0),
+                                  ([SETUP["vorbis"] + pattern(500, 13, 0, 256)], True, 0)] + audio_plan("vorbis"))
+    x = stream_pages(0x58585802, [([b"fishead\x00" + pattern(56, 11, 5)], True, 0), ([pattern(200, 3, 1)], True, 10), ([b"end"], True, 20)])
+    t = stream_pages(0x54545403, [([theora_ident], True, 0), ([comment_packet("theora", b"Xiph.Org libtheora 1.1", ITEMS[:1], 300),
+                                                              SETUP["theora"] + pattern(400)], True, 0)] + audio_plan("theora"))
+    assert len(v[0]) + len(x[0]) >= 128 > len(v[0])
+    return b"".join([v[0], x[0], t[0], v[1], t[1], v[2], x[1]] + v[3:-1] + t[2:] + x[2:] + v[-1:])
 OPAQUE = b"\xde\xad\xbe\xef opaque \x00\x01\x02 extension data\xfe"
 # padding per RFC 7845 5.2 (first byte even) that is neither zero-filled nor zero at its first byte
 STALE = b"\x02\x00ALBUM=Stale-Tail-of-an-older-comment" + bytes(24)
@@ -185,6 +226,14 @@ def layouts(kind, base):
     ident = ident_packet(d0, c)
     if ident is None:
         return out
+    # two logical streams; the comment packet spans two pages and a complete page of the OTHER stream lies between them
+    if c == "flac":
+        out.append(("layout-foreign-page-inside-comment+" + name0,
+                    oggflac(ident, b"reference libFLAC 1.3.2 20170101", ITEMS + [b"COVERART=" + b"QUJD" * 1100], behind=[(1, bytes(64))],
+                            comment_pages=True, foreign=True)))
+    else:
+        out.append(("layout-foreign-page-inside-comment+" + name0,
+                    headers_own_pages(c, ident, comment_packet(c, VENDOR, ITEMS, 4080 + 700), foreign=True)))
     if c == "vorbis":
         out.append(("layout-shared-page+" + name0, headers_shared_page(c, ident, comment_packet(c, VENDOR, ITEMS, 7000))))
         # the padded comment packet fills 2 * 4080 bytes exactly: pages [4080 open][4080 + terminating 0]
